@@ -463,6 +463,28 @@ func ruleExactTruncationIn(file string, min int) func(p *Prog, l *Ledger, tier s
 								key := l.Key(rule, name, "scaled-quotient", cn)
 								l.Fail(rule, name, key, p.Pos(m.Pos()), fmt.Sprintf("%s scales %s, which has already dropped the sub-unit part of the duration: a frame boundary that is not a whole number of that unit (33.333334 ms at 30 fps) is computed one too low", name, cn))
 							}
+							// a unit computed by a function of the library: what it returns may be an integer quotient
+							if sc := c.Call.StaticCallee(); sc != nil && fnPkg(sc) == p.LibSSA && len(sc.Blocks) > 0 {
+								if _, isC := constInt(stripConv(other)); !isC {
+									for _, hb := range sc.Blocks {
+										r, ok := hb.Instrs[len(hb.Instrs)-1].(*ssa.Return)
+										if !ok || len(r.Results) != 1 {
+											continue
+										}
+										hq, ok := stripConv(r.Results[0]).(*ssa.BinOp)
+										if !ok || hq.Op != token.QUO || !isIntegerT(hq.Type()) {
+											continue
+										}
+										if _, isC := constInt(stripConv(hq.Y)); isC {
+											continue
+										}
+										n++
+										key := l.Key(rule, name, "scaled-quotient", FnName(sc))
+										l.Fail(rule, name, key, p.Pos(m.Pos()), fmt.Sprintf("%s multiplies the result of %s, which returns an integer quotient (… / %s, at %s) whose remainder is already discarded: one frame or one tick is too short whenever the rate does not divide the dividend (33333333 ns for a frame at 30 fps), and the error grows with the count", name, FnName(sc), descOf(hq.Y), p.Pos(hq.Pos())))
+										break
+									}
+								}
+							}
 							continue
 						}
 						q, ok := stripConv(side).(*ssa.BinOp)
